@@ -16,7 +16,10 @@ func VectorAggregation(
 	expr *logql.VectorAggregationExpr,
 ) (StepIterator, error) {
 	var (
-		grouper     = nopGrouper
+		// Without grouping clause, all series form a single group with empty label set.
+		grouper = func(AggregatedLabels, ...logql.Label) AggregatedLabels {
+			return &emptyLabels{}
+		}
 		groupLabels []logql.Label
 	)
 	if g := expr.Grouping; g != nil {
